@@ -287,8 +287,9 @@ theorem countHit_valsOf (n d : Nat) (o : Occur) (cs : List (Occur × STree)) :
     · by_cases hm : mem n c.2 d = true <;> simp [h, hm, ih, memCnt] <;> omega
     · simp [h, ih]
 
-/-- the side condition of DESIGN F4 at scorer-tree level -/
-def singleOkT (cs : List (Occur × STree)) (msm : Nat) : Bool :=
+/-- the side condition of DESIGN F4 at scorer-tree level (void when the guard is present) -/
+def singleOkT (guard : Bool) (cs : List (Occur × STree)) (msm : Nat) : Bool :=
+  guard ||
   match cs with
   | [(o, _)] =>
     match o with
@@ -313,9 +314,9 @@ theorem boolSem_iff (vals : List (Occur × Bool)) (msm : Nat) :
     refine ⟨⟨⟨by omega, h2⟩, h3⟩, ?_⟩
     split <;> split at h4 <;> omega
 
-theorem mem_boolScorer (scoring : Bool) (n d : Nat) (hd : d < n) (cs : List (Occur × STree)) (msm : Nat)
-    (hok : singleOkT cs msm = true) :
-    mem n (boolScorer scoring n cs msm) d = boolSem (valsOf n d cs) msm := by
+theorem mem_boolScorer (guard : Bool) (scoring : Bool) (n d : Nat) (hd : d < n) (cs : List (Occur × STree)) (msm : Nat)
+    (hok : singleOkT guard cs msm = true) :
+    mem n (boolScorer guard scoring n cs msm) d = boolSem (valsOf n d cs) msm := by
   have key : ∀ cs : List (Occur × STree),
       (mem n (complex scoring n (occList .must cs) (occList .should cs) (occList .mustNot cs) msm) d = true
         ↔ boolSem (valsOf n d cs) msm = true) := by
@@ -326,20 +327,34 @@ theorem mem_boolScorer (scoring : Bool) (n d : Nat) (hd : d < n) (cs : List (Occ
   split
   · simp [valsOf, boolSem, countOcc, mem]
   · rename_i o t
+    have e1 : (Occur.must == Occur.mustNot) = false := by decide
+    have e2 : (Occur.should == Occur.mustNot) = false := by decide
+    have e3 : (Occur.must == Occur.should) = false := by decide
+    have e4 : (Occur.should == Occur.should) = true := by decide
     cases o
     · -- must
-      simp only [singleOkT, decide_eq_true_eq] at hok
-      subst hok
-      have : (Occur.must == Occur.mustNot) = false := by decide
-      simp only [this, Bool.false_eq_true, if_false]
-      by_cases hm : mem n t d = true <;> simp [valsOf, boolSem, countOcc, countHit, hm]
+      by_cases hm0 : msm = 0
+      · subst hm0
+        by_cases hm : mem n t d = true <;> cases guard <;>
+          simp [e1, e3, valsOf, boolSem, countOcc, countHit, hm]
+      · cases guard
+        · simp [singleOkT] at hok; exact absurd hok hm0
+        · have : 0 < msm := Nat.pos_of_ne_zero hm0
+          by_cases hm : mem n t d = true <;>
+            simp [e1, e3, this, valsOf, boolSem, countOcc, countHit, hm, mem] <;> omega
     · -- should
-      simp only [singleOkT, decide_eq_true_eq] at hok
-      have : (Occur.should == Occur.mustNot) = false := by decide
-      simp only [this, Bool.false_eq_true, if_false]
-      have hmsm : msm = 0 ∨ msm = 1 := by omega
-      rcases hmsm with h | h <;> subst h <;>
-        by_cases hm : mem n t d = true <;> simp [valsOf, boolSem, countOcc, countHit, hm]
+      by_cases hle : msm ≤ 1
+      · have hmsm : msm = 0 ∨ msm = 1 := by omega
+        rcases hmsm with h | h <;> subst h <;>
+          by_cases hm : mem n t d = true <;> cases guard <;>
+            simp [e2, e4, valsOf, boolSem, countOcc, countHit, hm]
+      · cases guard
+        · simp [singleOkT] at hok; exact absurd hok hle
+        · have : 1 < msm := by omega
+          have h0 : ¬ msm = 0 := by omega
+          have h1 : ¬ msm ≤ 1 := by omega
+          by_cases hm : mem n t d = true <;>
+            simp [e2, e4, this, h0, h1, valsOf, boolSem, countOcc, countHit, hm, mem]
     · -- must_not
       simp [valsOf, boolSem, countOcc, countHit, mem]
   · rename_i h1 h2
